@@ -471,6 +471,15 @@ func CompileRegexp(re *syntax.Regexp, config Config) (*Engine, error) {
 		})
 		literals = extractor.ExtractPrefixes(re)
 
+		// A literal set that lost members (truncated to MaxLiterals, or an overflowing
+		// alternation) does not cover every way a match can begin: used as a prefilter
+		// or by the literal strategies it hides the matches of the dropped branches
+		// (`a|b` with MaxLiterals = 1 never found "b"). Only a few dispatchers check
+		// the partial-coverage flag, so such a set is not used at all.
+		if literals != nil && literals.IsPartialCoverage() {
+			literals = nil
+		}
+
 		// Build prefilter from prefix literals
 		if literals != nil && !literals.IsEmpty() {
 			builder := prefilter.NewBuilder(literals, nil)
